@@ -294,7 +294,7 @@ func c03RunMode(t *testing.T, p c03Plan, mode string) (res vfResult) {
 			time.Sleep(10 * time.Millisecond)
 			synctest.Wait()
 			sc.stop()
-			verifPointFn = nil
+			vfCurSched.Store(nil)
 		}
 		// resume
 		resumedAt := time.Duration(-1)
